@@ -216,7 +216,7 @@ package transports
 //@ func (*websocket).onMessage(data)
 //@   props C02
 //@   requires w != nil && w.Transport != nil
-//@   modifies *
+//@   modifies nothing
 //@   ensures [C02.ws.deliver] calls(Transport.OnData) == 1 && arg(Transport.OnData, 1, data) == data
 
 //@ func (*websocket).Send(packets)
